@@ -14,8 +14,20 @@ type ColAuto struct {
 	DataType ColumnType
 }
 
+// maxInferDepth limits nesting of Array, Nullable and LowCardinality
+// in types accepted by ColAuto.Infer, bounding recursion depth for
+// type names that come from the wire.
+const maxInferDepth = 100
+
 // Infer and initialize Column from ColumnType.
 func (c *ColAuto) Infer(t ColumnType) error {
+	return c.infer(t, 0)
+}
+
+func (c *ColAuto) infer(t ColumnType, depth int) error {
+	if depth > maxInferDepth {
+		return errors.Errorf("type nesting is too deep (max %d)", maxInferDepth)
+	}
 	if c.Data != nil && !c.Type().Conflicts(t) {
 		// Already ok, but the column still has to adopt parameters of t
 		// (enum values, precision, location); infer again if it can't.
@@ -58,7 +70,7 @@ func (c *ColAuto) Infer(t ColumnType) error {
 		switch t.Base() {
 		case ColumnTypeArray:
 			inner := new(ColAuto)
-			if err := inner.Infer(t.Elem()); err != nil {
+			if err := inner.infer(t.Elem(), depth+1); err != nil {
 				return errors.Wrap(err, "array")
 			}
 			innerValue := reflect.ValueOf(inner.Data)
@@ -72,7 +84,7 @@ func (c *ColAuto) Infer(t ColumnType) error {
 			}
 		case ColumnTypeNullable:
 			inner := new(ColAuto)
-			if err := inner.Infer(t.Elem()); err != nil {
+			if err := inner.infer(t.Elem(), depth+1); err != nil {
 				return errors.Wrap(err, "nullable")
 			}
 			innerValue := reflect.ValueOf(inner.Data)
@@ -86,7 +98,7 @@ func (c *ColAuto) Infer(t ColumnType) error {
 			}
 		case ColumnTypeLowCardinality:
 			inner := new(ColAuto)
-			if err := inner.Infer(t.Elem()); err != nil {
+			if err := inner.infer(t.Elem(), depth+1); err != nil {
 				return errors.Wrap(err, "low cardinality")
 			}
 			innerValue := reflect.ValueOf(inner.Data)
